@@ -130,6 +130,79 @@ Theorem C13_save_load_wrong_size :
 Proof. exact @save_load_wrong_size. Qed.
 Print Assumptions C13_save_load_wrong_size.
 
+(* headers that come with rasters produced elsewhere (ULXMAP/ULYMAP/XDIM/YDIM/NODATA):
+   cell size = XDIM, x corner = ULXMAP, y corner = ULYMAP - cellsize*nrows; cells
+   that are not square beyond the tolerance are rejected *)
+Theorem C13_esri_header :
+  forall (T : Type) (N : NumOps T) (IO : IoOps T),
+  (forall x, io_rd IO (io_pr IO x) = Some x) ->
+  (forall x, no_ws (io_pr IO x) = true) ->
+  (forall x, parse_Z (io_pr IO x) = None) ->
+  forall (w : Z) (defname : string) (m : gmeta T) (ux uy xd yd : T),
+  1 <= g_nrows m < 2 ^ 63 -> 1 <= g_ncols m < 2 ^ 63 -> In (g_dtype m) all_dtypes ->
+  conv_nodata N IO (g_dtype m) (g_nodata m) = Some (g_nodata m) ->
+  from_stream_header N IO defname (String.concat "" (esri_lines IO w m ux uy xd yd)) =
+  if nltb N (io_tol IO) (nabs N (nsub N yd xd)) then None
+  else Some (mkG defname (g_ncols m) (g_nrows m) xd ux (nsub N uy (nmul N xd (nofZ N (g_nrows m))))
+                 (g_dtype m) (g_nodata m) STREAM_DEF_COMMENT [], LE).
+Proof. exact @esri_header. Qed.
+Print Assumptions C13_esri_header.
+
+(* over the reals, square cells (YDIM = XDIM) always pass the test of the extracted tolerance *)
+Example C13_esri_square_cells :
+  forall x : R, nltb RR STREAM_YDIM_TOL_R (nabs RR (nsub RR x x)) = false.
+Proof. intros x. exact (esri_square_RR STREAM_YDIM_TOL_R x ydim_tol_nonneg). Qed.
+
+(* the file must hold exactly nrows*ncols whole items *)
+Theorem C13_load_size_iff :
+  forall (T : Type) (m : gmeta T) bo bytes,
+  In (g_dtype m) all_dtypes ->
+  (load m bo bytes <> None <->
+   Z.of_nat (List.length bytes / Z.to_nat (snd (g_dtype m))) = g_nrows m * g_ncols m).
+Proof. exact @load_size_iff. Qed.
+Print Assumptions C13_load_size_iff.
+
+(* error branches of the header parser / constructor / from_dict *)
+Theorem C13_parse_line_one_token :
+  forall (T : Type) (IO : IoOps T) st l k,
+  tokens l = [k] -> key_class (lower k) <> KCText -> parse_line IO st l = None.
+Proof. exact @parse_line_one_token. Qed.
+Print Assumptions C13_parse_line_one_token.
+
+Example C13_parse_line_one_token_example :
+  tokens (append "NROWS" NL) = [append "NROWS" NL] /\ key_class (lower (append "NROWS" NL)) <> KCText.
+Proof. split; [reflexivity | vm_compute; discriminate]. Qed.
+
+Theorem C13_bad_byteorder :
+  forall (T : Type) (N : NumOps T) (IO : IoOps T) c p b,
+  get_text c "byteorder" = Some b -> b <> "m"%string -> b <> "i"%string -> finish_stream N IO (c, p) = None.
+Proof. exact @finish_stream_bad_byteorder. Qed.
+Print Assumptions C13_bad_byteorder.
+
+Theorem C13_nodata_out_of_range :
+  forall (T : Type) (N : NumOps T) (IO : IoOps T) d z name nc nr csz xll yll comment,
+  fst d <> KFloat -> in_range d z = false ->
+  mk_grid N IO name nc nr csz xll yll d (NInt z) comment = None.
+Proof.
+  intros. apply mk_grid_bad_nodata. apply conv_nodata_out_of_range; assumption.
+Qed.
+Print Assumptions C13_nodata_out_of_range.
+
+Example C13_nodata_out_of_range_example : in_range (KInt, 1) 128 = false /\ in_range (KUInt, 2) (-1) = false.
+Proof. split; reflexivity. Qed.
+
+Theorem C13_negative_shape :
+  forall (T : Type) (N : NumOps T) (IO : IoOps T) name nc nr csz xll yll d nd comment,
+  nr < 0 \/ nc < 0 -> mk_grid N IO name nc (Some nr) csz xll yll d nd comment = None.
+Proof. exact @mk_grid_negative. Qed.
+Print Assumptions C13_negative_shape.
+
+Theorem C13_from_dict_missing_key :
+  forall (T : Type) (N : NumOps T) (IO : IoOps T) (d : dict T),
+  lookup "name" d = None \/ lookup "ncols" d = None -> from_dict N IO d = None.
+Proof. exact @from_dict_missing. Qed.
+Print Assumptions C13_from_dict_missing_key.
+
 (* ---------------------------------------------------------------------- *)
 (* dictionary export / import *)
 Theorem C13_dict_roundtrip :
